@@ -12,7 +12,7 @@ META = {
     'text': 'Decides for every transport operation in client and server code (poll_ready / start_send / poll_flush / poll_close / poll_next on the fused transport) that its error is wrapped in '
             'exactly the ChannelError variant that names the activity, that clone / upcast / downcast keep the variant, that a failed request write completes only that call with '
             'RpcError::Send and is not turned into a channel error, that the enqueue failure and a dropped dispatcher map to Shutdown, that the server\'s execute() stops at the first '
-            'stream error (take_while is_ok) and that dropping the in-flight table aborts every handler; on every abstract path a failed transport operation ends the activation with an error, and an activation that starts with a stored terminal error performs no transport operation and completes only with Err. No explicit panic is reachable from a transport error (inventory shared with C16).',
+            'stream error (take_while is_ok) and that dropping the in-flight table aborts every handler; on every abstract path a failed transport operation ends the activation with an error, and an activation that starts with a stored terminal error performs no transport operation and completes only with Err; the dispatch ends well only if the read side ended or poll_close returned Ready(Ok) in that very activation, so a failing close is always reported (C09.close). No explicit panic is reachable from a transport error (inventory shared with C16).',
     'note': 'Trusted: futures combinators (map_err, take_while), Arc. The terminal-error fan-out ordering (close queue, fail in-flight, drain) is decided by the shape walker under C02.',
 }
 
